@@ -10,7 +10,7 @@
 From Coq Require Import List NArith.
 From NV Require Import Base.LE Bgzf.Crc32 Bgzf.Crc32Proofs Bgzf.Frame Bgzf.FrameProofs
   Bgzf.Writer Bgzf.Reader Bgzf.ReaderProofs Bgzf.WriterProofs
-  Bgzf.Inflate Bgzf.InflateProofs Bgzf.Level0Proofs.
+  Bgzf.Inflate Bgzf.InflateProofs Bgzf.InflateFuel Bgzf.InflateHuffman Bgzf.InflateFixed Bgzf.InflateTokens Bgzf.InflateBody Bgzf.InflateDynamic Bgzf.Level0Proofs.
 Import ListNotations.
 Open Scope N_scope.
 
@@ -296,6 +296,134 @@ Proof.
 Qed.
 Print Assumptions c01_inflate_limit_independent.
 
+(* the fuel of the inflater is never the reason for a failure: every symbol consumes >= 1 input bit
+   and every block >= 3, so ANY fuel above the number of input bits gives the result of inflate_raw
+   (which supplies 8 |src| + 1); likewise the code-length reader never runs out of its fuel *)
+Theorem c01_inflate_fuel_sufficient :
+  (forall f cf limit src, (8 * length src < f)%nat -> (8 * length src < cf)%nat ->
+     match blocks f cf limit ([], src) ob_empty with
+     | None => None
+     | Some (s, o) => Some (rev_append (ob_rev o) [], snd s)
+     end = inflate_raw limit src) /\
+  (forall f1 f2 cl need acc s, (need <= f1)%nat -> (need <= f2)%nat ->
+     read_lens f1 cl need acc s = read_lens f2 cl need acc s).
+Proof. split; [exact inflate_fuel_sufficient|exact read_lens_fuel]. Qed.
+Print Assumptions c01_inflate_fuel_sufficient.
+
+(* HUFFMAN CODES.  The tree built from a list of code lengths is the canonical code of RFC 1951
+   3.2.2: its leaves, left to right, followed by the symbols that did not fit, are the symbols with
+   a non-zero length in (length, symbol) order, each leaf at the depth of its length; nothing left
+   over (= not over-subscribed) means all of them are leaves; a gap (incomplete code) is never
+   followed by a leaf or by left-over symbols *)
+Theorem c01_huffman_canonical :
+  forall lens,
+    leaves 0 (fst (mk_tree lens)) ++ snd (mk_tree lens) = sorted_syms lens /\
+    (snd (mk_tree lens) = [] -> leaves 0 (fst (mk_tree lens)) = sorted_syms lens) /\
+    (hcomplete (fst (mk_tree lens)) = false -> snd (mk_tree lens) = []).
+Proof. exact mk_tree_canonical. Qed.
+Print Assumptions c01_huffman_canonical.
+
+(* DECODING.  bits_all s = the bits still to be read (LSB-first within each byte).  If they start
+   with the path of a leaf, hdecode returns that symbol and consumes exactly those bits; whatever
+   hdecode returns is the leaf at the end of the bits it consumed; a path determines its symbol
+   (prefix code); every symbol with a non-zero length has a code of exactly that many bits which
+   hdecode decodes; and the fixed trees carry the code table of RFC 1951 3.2.6 *)
+Theorem c01_huffman_decode :
+  (forall t p x, path_to t p x -> forall s rest, bits_all s = p ++ rest ->
+     exists s', hdecode t s = Some (x, s') /\ bits_all s' = rest) /\
+  (forall t s x s', hdecode t s = Some (x, s') ->
+     exists p, path_to t p x /\ bits_all s = p ++ bits_all s') /\
+  (forall t p x y, path_to t p x -> path_to t p y -> x = y) /\
+  (forall lens len sym, snd (mk_tree lens) = [] -> In (len, sym) (sorted_syms lens) ->
+     exists code, length code = len /\ path_to (fst (mk_tree lens)) code sym /\
+       forall s rest, bits_all s = code ++ rest ->
+         exists s', hdecode (fst (mk_tree lens)) s = Some (sym, s') /\ bits_all s' = rest) /\
+  (find_path fixed_lt 0 = Some [false; false; true; true; false; false; false; false] /\
+   find_path fixed_lt 143 = Some [true; false; true; true; true; true; true; true] /\
+   find_path fixed_lt 144 = Some [true; true; false; false; true; false; false; false; false] /\
+   find_path fixed_lt 255 = Some [true; true; true; true; true; true; true; true; true] /\
+   find_path fixed_lt 256 = Some [false; false; false; false; false; false; false] /\
+   find_path fixed_lt 279 = Some [false; false; true; false; true; true; true] /\
+   find_path fixed_lt 280 = Some [true; true; false; false; false; false; false; false] /\
+   find_path fixed_lt 287 = Some [true; true; false; false; false; true; true; true] /\
+   find_path fixed_dt 0 = Some [false; false; false; false; false] /\
+   find_path fixed_dt 29 = Some [true; true; true; false; true] /\
+   find_path fixed_dt 30 = None) /\
+  (forall t x p, find_path t x = Some p -> path_to t p x).
+Proof.
+  destruct hdecode_correct as [H1 [H2 H3]].
+  split; [exact H1|]. split; [exact H2|]. split; [exact H3|]. split; [exact mk_tree_decodes|].
+  split; [exact fixed_code_table|exact find_path_sound].
+Qed.
+Print Assumptions c01_huffman_decode.
+
+(* a second compressor inverted by the inflater, this time through the Huffman path: one final
+   fixed-Huffman block (BTYPE = 1) coding every byte as a literal with the 3.2.6 code, then
+   end-of-block, packed LSB-first.  For EVERY byte string x (bytes < 256, any length) *)
+Theorem c01_inflate_fixed_lit_correct :
+  forall x, Forall (fun b => b < 256) x -> inflate (deflate_fixed_lit x) (lenN x) = Some x.
+Proof. exact inflate_fixed_lit_correct. Qed.
+Print Assumptions c01_inflate_fixed_lit_correct.
+
+(* FIXED-HUFFMAN BLOCKS AGAINST A DECLARATIVE SPECIFICATION.  A block body is a sequence of LZ77
+   tokens (TLit b | TMatch len dist); [expand] is its meaning on byte lists (a match copies byte by
+   byte from dist bytes back, overlapping allowed); [deflate_fixed_tokens] is the encoding of RFC
+   1951 3.2.5 / 3.2.6 (symbol = last table base <= value, extra bits LSB-first, fixed Huffman codes
+   MSB-first, BFINAL = 1, BTYPE = 01, packed LSB-first).  For EVERY valid token sequence (literals
+   < 256, lengths 3..258, distances 1..32768 not reaching before the start) the inflater decodes
+   the encoding to the expansion *)
+Theorem c01_inflate_fixed_tokens_correct :
+  forall ts, tokens_ok ts [] ->
+    inflate (deflate_fixed_tokens ts) (lenN (expand ts [])) = Some (expand ts []).
+Proof. exact inflate_fixed_tokens_correct. Qed.
+Print Assumptions c01_inflate_fixed_tokens_correct.
+
+(* BLOCK BODIES UNDER ARBITRARY TREES.  For any literal/length tree lt (not a bare leaf) and distance
+   tree dt in which every symbol the tokens use, and end-of-block, has a code: [codes] decodes the
+   encoding of the tokens under those trees followed by the end-of-block code to the expansion,
+   consuming exactly that encoding; and every symbol with a length 1..15 in a not over-subscribed
+   description has a code in the tree built from it *)
+Theorem c01_block_body_any_trees :
+  (forall lt dt ts f limit s o rest,
+     not_leaf lt -> has_code lt 256 -> Forall (token_coded lt dt) ts ->
+     win_ok o -> tokens_ok ts (ob_list o) ->
+     bits_all s = flat_map (enc_token_in lt dt) ts ++ code_in lt 256 ++ rest ->
+     (bits_left s < f)%nat -> lenN (expand ts (ob_list o)) <= limit ->
+     exists s' o', codes f limit lt dt s o = Some (s', o') /\
+       win_ok o' /\ ob_list o' = expand ts (ob_list o) /\ bits_all s' = rest) /\
+  (forall lens k, snd (mk_tree lens) = [] -> (k < length lens)%nat -> (1 <= nth k lens O <= 15)%nat ->
+     has_code (fst (mk_tree lens)) (N.of_nat k)).
+Proof. split; [exact codes_tokens_in|exact mk_tree_codes_all]. Qed.
+Print Assumptions c01_block_body_any_trees.
+
+(* DYNAMIC-HUFFMAN BLOCKS AGAINST A DECLARATIVE SPECIFICATION (RFC 1951 3.2.7).  A block is described
+   by the 19 code lengths cll of the code-length alphabet, the code lengths ll (257..286) of the
+   literal/length alphabet and dl (1..30) of the distance alphabet, and a token sequence;
+   [deflate_dynamic] is its encoding (BFINAL = 1, BTYPE = 10, HLIT, HDIST, HCLEN = 15, the 19 lengths
+   in the permuted order, ll ++ dl each coded by its own code-length symbol, the tokens under the
+   canonical codes of ll / dl, end-of-block; packed LSB-first).  Whenever the descriptions pass the
+   inflater's acceptance rules (dyn_ok: cll complete; ll, dl complete or a single 1-bit code; the
+   end-of-block symbol has a code; every length value used has a code-length code) and every symbol
+   the tokens use has a non-zero length, the inflater decodes the block to the expansion *)
+Theorem c01_inflate_dynamic_correct :
+  forall cll ll dl ts,
+    dyn_ok cll ll dl ->
+    Forall (token_coded (fst (mk_tree ll)) (fst (mk_tree dl))) ts ->
+    tokens_ok ts [] ->
+    inflate (deflate_dynamic cll ll dl ts) (lenN (expand ts [])) = Some (expand ts []).
+Proof. exact inflate_dynamic_correct. Qed.
+Print Assumptions c01_inflate_dynamic_correct.
+
+(* the side conditions are decidable and satisfiable: a concrete dynamic block for "abbbb" *)
+Theorem c01_dynamic_example :
+  dyn_ok ex_cll ex_ll ex_dl /\
+  Forall (token_coded (fst (mk_tree ex_ll)) (fst (mk_tree ex_dl))) ex_ts /\
+  tokens_ok ex_ts [] /\
+  expand ex_ts [] = [97; 98; 98; 98; 98] /\
+  inflate (deflate_dynamic ex_cll ex_ll ex_dl ex_ts) 5 = Some [97; 98; 98; 98; 98].
+Proof. exact dynamic_example. Qed.
+Print Assumptions c01_dynamic_example.
+
 (* the window trie of the inflater is an implementation detail: in every state reached from the
    empty buffer it holds exactly the output list; a literal appends one byte, a stored block its
    bytes, and a match (length n, distance 1 <= d <= |out|) appends the list-level LZ77 copy
@@ -388,4 +516,8 @@ Proof. vm_compute. reflexivity. Qed.
 Example c01_inflate_dynamic :
   inflate [85; 142; 187; 10; 128; 48; 12; 69; 231; 155; 79; 233; 20; 133; 142; 25; 130; 160; 184; 247; 15; 84; 112; 16; 5; 253; 127; 208; 150; 244; 97; 58; 244; 114; 233; 57; 13; 205; 223; 140; 223; 200; 164; 33; 232; 160; 189; 247; 200; 29; 151; 164; 195; 20; 114; 94; 246; 187; 3; 227; 188; 174; 245; 216; 30; 33; 98; 136; 48; 28; 204; 64; 118; 139; 67; 122; 26; 89; 171; 126; 10; 19; 180; 185; 126; 232; 16; 79; 93; 164; 217; 46; 250; 18; 100; 29; 131; 12; 119; 40; 65; 42; 28; 25; 169; 222; 156; 94] 250
   = Some [10; 73; 73; 73; 73; 70; 70; 70; 70; 61; 71; 65; 84; 84; 65; 67; 65; 50; 53; 53; 9; 73; 73; 73; 73; 70; 70; 70; 70; 48; 9; 73; 73; 73; 73; 70; 70; 70; 70; 65; 67; 71; 84; 73; 73; 73; 73; 70; 70; 70; 70; 99; 104; 114; 49; 9; 48; 9; 110; 111; 111; 100; 108; 101; 115; 61; 10; 10; 48; 9; 61; 61; 48; 9; 42; 9; 71; 65; 84; 84; 65; 67; 65; 10; 71; 65; 84; 84; 65; 67; 65; 61; 42; 9; 99; 104; 114; 49; 9; 65; 67; 71; 84; 71; 65; 84; 84; 65; 67; 65; 73; 73; 73; 73; 70; 70; 70; 70; 99; 104; 114; 49; 9; 110; 111; 111; 100; 108; 101; 115; 99; 104; 114; 49; 9; 110; 111; 111; 100; 108; 101; 115; 48; 9; 73; 73; 73; 73; 70; 70; 70; 70; 42; 9; 42; 9; 42; 9; 73; 73; 73; 73; 70; 70; 70; 70; 48; 9; 71; 65; 84; 84; 65; 67; 65; 50; 53; 53; 9; 65; 67; 71; 84; 99; 104; 114; 49; 9; 71; 65; 84; 84; 65; 67; 65; 48; 9; 10; 110; 111; 111; 100; 108; 101; 115; 42; 9; 110; 111; 111; 100; 108; 101; 115; 42; 9; 61; 42; 9; 73; 73; 73; 73; 70; 70; 70; 70; 50; 53; 53; 9; 61; 73; 73; 73; 73; 70; 70; 70; 70; 42; 9; 73; 73; 73; 73; 70; 70; 70; 70].
+Proof. vm_compute. reflexivity. Qed.
+
+Example c01_fixed_lit_example :
+  deflate_fixed_lit [110; 111; 111; 100; 108; 101; 115] = [203; 203; 207; 79; 201; 73; 45; 6; 0].
 Proof. vm_compute. reflexivity. Qed.
